@@ -265,6 +265,28 @@ impl PartitionReplicatorActor {
         }
     }
 
+    /// Answers and removes buffered writes below the next expected sequence.
+    ///
+    /// A multi-event transaction moves the next expected sequence past keys that may be
+    /// buffered (writes sent for a sequence inside its range): they can never be applied
+    /// any more and would otherwise stay behind, unanswered, below the next sequence.
+    fn reject_stale_buffered_writes(&mut self) {
+        let next = *self.buffered_writes.next();
+        let mut removed = false;
+        while let Some(entry) = self.buffered_writes.queue.map.first_entry() {
+            if *entry.key() >= next {
+                break;
+            }
+            for reply in entry.remove().reply_senders {
+                reply.tx.send(Err(WriteError::StaleWrite));
+            }
+            removed = true;
+        }
+        if removed {
+            self.buffered_writes.update_timeout();
+        }
+    }
+
     fn pop_next_buffered_write(&mut self) -> Option<BufferedWrite> {
         while let Some(mut write) = self.buffered_writes.pop() {
             if write.garbage_collect(self.buffer_timeout) {
@@ -314,6 +336,7 @@ impl PartitionReplicatorActor {
                 );
                 self.buffered_writes
                     .progress_to(append.last_partition_sequence + 1);
+                self.reject_stale_buffered_writes();
 
                 // Buffer events for potential broadcast when confirmed
                 // Convert partition sequences to 1-indexed versions for the confirmation system
